@@ -11,3 +11,13 @@ open BsVerif.Call
 #print axioms C16_args_in_sysv_registers
 #print axioms C16_args_touch_only_sysv_registers
 #print axioms C16_restore_from_any_failure
+#print axioms C16_called_once_with_args
+#print axioms C16_state_restored
+#print axioms C16_memory_at_entry
+#print axioms C16_text_restored
+#print axioms wGood
+#print axioms wFrame
+#print axioms C16_stack_untouched_counterexample
+#print axioms C16_no_leak_partial
+#print axioms C16_no_leak_counterexample
+#print axioms C16_breakpoints_reenabled_counterexample
